@@ -20,6 +20,7 @@ type Schema struct {
 	Kind   string // bool num i64 u64 str bytes barr u256 time struct slice arr map iface barrx
 	RegKey string // barrx / coded bytes: field key in the registered type settings ("" = none: the default key "data")
 	Coded  bool   // bytes: []byte has registered type settings with an object code in this case (object form)
+	Named  bool   // bytes (always Coded): the hand-written zoo type zooNB = []zooB with `type zooB uint8` (not assignable to []byte)
 	NK     string // I8 I16 I32 U8 U16 U32
 	N      int    // barr / arr length
 	Ptr    bool   // struct behind a pointer
@@ -77,6 +78,14 @@ var (
 	}
 )
 
+// zoo of hand-written named types (reflect cannot create named types)
+type zooB uint8
+type zooNB []zooB
+type zooNA [3]zooB
+type zooNP [2]zooB
+
+var tZooNB = reflect.TypeOf(zooNB(nil))
+
 // expectKey: the JSON key serix derives from a field name (written independently of serix.FieldKeyString).
 func expectKey(name string) string {
 	for _, kw := range [][2]string{{"ID", "Id"}, {"NFT", "Nft"}, {"URL", "Url"}, {"HRP", "Hrp"}} {
@@ -110,6 +119,9 @@ func (s *Schema) build() reflect.Type {
 		s.T = tString
 	case "bytes":
 		s.T = tBytes
+		if s.Named {
+			s.T = tZooNB
+		}
 	case "barr":
 		s.T = reflect.ArrayOf(s.N, numT["U8"])
 	case "barrx": // [N]byte with registered object code and/or behind a pointer
@@ -192,7 +204,11 @@ func (s *Schema) register(api *serix.API, seen map[*Schema]bool) {
 			if s.RegKey != "" {
 				ts = ts.WithFieldKey(s.RegKey)
 			}
-			_ = api.RegisterTypeSettings([]byte(nil), ts) // one registration per case: every []byte of the case is coded
+			if s.Named {
+				_ = api.RegisterTypeSettings(zooNB(nil), ts)
+			} else {
+				_ = api.RegisterTypeSettings([]byte(nil), ts) // one registration per case: every []byte of the case is coded
+			}
 		}
 	case "barrx":
 		if s.Code >= 0 {
@@ -276,7 +292,7 @@ func (s *Schema) coqCode(withCode bool) string {
 			if key == "" {
 				key = "data"
 			}
-			return "(SBytesO " + vx.N(uint64(s.Code)) + " " + coqStr(key) + ")"
+			return "(SBytesO " + vx.N(uint64(s.Code)) + " " + coqStr(key) + " " + vx.Bool(s.Named) + ")"
 		}
 		return "SBytes"
 	case "barr":
@@ -309,7 +325,7 @@ func (s *Schema) coqCode(withCode bool) string {
 				return `(""%string, FInline, ` + f.S.coqCode(f.Inline) + ")"
 			}
 			if f.S.Kind == "bytes" && f.S.Coded && f.TagKey != "" {
-				return "(" + coqStr(f.Key()) + ", " + m + ", (SBytesO " + vx.N(uint64(f.S.Code)) + " " + coqStr(f.TagKey) + "))"
+				return "(" + coqStr(f.Key()) + ", " + m + ", (SBytesO " + vx.N(uint64(f.S.Code)) + " " + coqStr(f.TagKey) + " " + vx.Bool(f.S.Named) + "))"
 			}
 			if f.S.Kind == "barrx" && !f.S.Ptr && f.S.Code >= 0 && f.TagKey != "" {
 				// a by-value array in a struct field: the field's type settings are merged over the registered ones, so
